@@ -18,7 +18,7 @@ def mk_cl():
 
       @update_once
       def up_src():
-        if s.idx < len(s.msgs):
+        if s.idx < len(s.msgs) and not s.reset:    # a legal environment is quiet during reset
           if s.wait > 0:
             s.wait -= 1
           elif s.send.rdy():
@@ -41,6 +41,7 @@ def mk_cl():
 
     @non_blocking(lambda s: s.now_ready)
     def recv(s, msg):
+      msg = msg.clone()        # adapters hand over the live signal object
       s.got.append(msg)
       s.ev.append(("rsp", s.port, msg))
 
